@@ -119,13 +119,20 @@ impl FolderMerge for Folder {
                                 None
                             };
 
+                        // Replaying the event log replaces an existing
+                        // entry for the identifier so must we
+                        let exists = access_point.vault().get(id).is_some();
+
                         #[cfg(feature = "search")]
                         let mut index_doc =
                             if let FolderMergeOptions::Search(
                                 folder_id,
                                 index,
-                            ) = &options
+                            ) = &mut options
                             {
+                                if exists {
+                                    index.remove(folder_id, id);
+                                }
                                 Some(
                                     index.prepare(
                                         folder_id, id, &meta, &secret,
@@ -135,8 +142,14 @@ impl FolderMerge for Folder {
                                 None
                             };
 
-                        let row = SecretRow::new(*id, meta, secret);
-                        access_point.create_secret(&row).await?;
+                        if exists {
+                            access_point
+                                .update_secret(id, meta, secret)
+                                .await?;
+                        } else {
+                            let row = SecretRow::new(*id, meta, secret);
+                            access_point.create_secret(&row).await?;
+                        }
 
                         // Add to the URN lookup index
                         if let (
@@ -183,7 +196,16 @@ impl FolderMerge for Folder {
                                 None
                             };
 
-                        access_point.update_secret(id, meta, secret).await?;
+                        // Replaying the event log inserts an entry when
+                        // the identifier is absent so must we
+                        if access_point.vault().get(id).is_some() {
+                            access_point
+                                .update_secret(id, meta, secret)
+                                .await?;
+                        } else {
+                            let row = SecretRow::new(*id, meta, secret);
+                            access_point.create_secret(&row).await?;
+                        }
 
                         #[cfg(feature = "search")]
                         if let (
